@@ -15,6 +15,60 @@ from .. import env, tlc, packs
 from ..layout import extract
 
 
+class _FilesPeer:
+    """a spa that answers the handshake from the bundled simulator but reports the given file naming"""
+
+    def __new__(cls, pname, c, l):
+        from ..simnet import SimPeer
+        from ..sessions import inner
+        from geckolib.driver import GeckoConfigFileProtocolHandler, GeckoPacketProtocolHandler
+
+        class Peer(SimPeer):
+            def on_datagram(self, data, sender):
+                out = super().on_datagram(data, sender)
+                content = inner(data)
+                if content is not None and content.startswith(b"SFILE"):
+                    ph = GeckoPacketProtocolHandler()
+                    ph.handle(data, sender)
+                    out = [(d, a) for (d, a) in out if not (inner(d) or b"").startswith(b"FILES")]
+                    out.append((GeckoConfigFileProtocolHandler.response(pname, c, l, parms=ph.parms).send_bytes, (sender[0], sender[1])))
+                return out
+        return Peer(env.REPO + "/tests/snapshots/default.snapshot")
+
+
+def _mod(obj):
+    return type(obj).__module__.rsplit(".", 1)[-1] if obj is not None else ""
+
+
+def loaded_modules(pname, c, l, stack):
+    """-> (pack module, config module, log module) the real client loaded after the spa's FILES reply"""
+    import contextlib
+    import io
+    from ..sessions import AsyncSession, ThreadedSession
+    peer = _FilesPeer(pname, c, l)
+    with contextlib.redirect_stdout(io.StringIO()):
+        if stack == "async":
+            with AsyncSession(peer=peer) as s:
+                for _ in range(60):
+                    s.advance(0.25)
+                    spa = s.man._spa
+                    if spa is not None and (getattr(spa, "log_class", None) is not None or s.man.spa_state.name.startswith("ERROR")):
+                        break
+                spa = s.man._spa
+                if spa is None:
+                    return ("", "", "")
+                return (_mod(getattr(spa, "pack_class", None)), _mod(getattr(spa, "config_class", None)), _mod(getattr(spa, "log_class", None)))
+        with ThreadedSession(peer=peer) as s:
+            for _ in range(300):
+                try:
+                    s.pump(1)
+                except Exception:      # the tables of another platform may not fit the simulator's block
+                    break
+                if s.spa.new_log_class is not None:
+                    break
+            return (_mod(s.spa.new_pack_class), _mod(s.spa.new_config_class), _mod(s.spa.new_log_class))
+
+
 def run(ctx):
     ev = ctx.ev
     r = tlc.model_check("PackTables", "PackTables_mc.cfg", workers=2, timeout=120)
@@ -71,6 +125,21 @@ def run(ctx):
                    "dcfg": -1, "dlog": -1, "module": plat}
         recs.append(rec)
         meta.append(f"{plat}.@files")
+    # the same naming through the real connection code of both clients: a spa that reports
+    # <Pack>_C<cfg>.xml / <Pack>_S<log>.xml makes the client load exactly these three modules
+    todo = packs.combos()
+    if ctx.quick:
+        by = {}
+        for plat, c, l in todo:
+            by.setdefault(plat, []).append((plat, c, l))
+        todo = [x for plat in sorted(by) for x in (by[plat][0], by[plat][-1])]
+    for plat, c, l in todo:
+        pname = cur[f"{plat}.@table"]["name"]
+        for stack in ("async", "sync"):
+            got = loaded_modules(pname, c, l, stack)
+            recs.append({"kind": "connect", "stack": stack, "pack": pname, "cfg": c, "log": l, "module": plat,
+                         "gpack": got[0], "gcfg": got[1], "glog": got[2]})
+            meta.append(f"{plat}.@connect")
     # immutability
     for key, prec in pinned.items():
         recs.append({"kind": "pin", "key": key, "pinned": prec, "current": cur.get(key, "missing")})
